@@ -88,6 +88,26 @@ def run(ctx):
         ctx.ob("R1", "pairing(%s)" % short, r1 and n_ret > 0, ctx.where(F), w1 or "timer started once and cancelled once on all %d returning paths; searches inside the window" % n_ret)
         ctx.ob("R3", "guarded-report(%s)" % short, r3 and n_ans > 0, ctx.where(F), w3 or "each of %d reported answers follows a stop-flag read (false) taken after its search" % n_ans)
         ctx.ob("R4", "answer-text(%s)" % short, r4 and n_ans > 0, ctx.where(F), w4 or "format_solution(query, query.replace_variables(Some-payload of that search))")
+    # ---- R3b: the timeout message is produced only after the flag was read as set ---------------------------------
+    for nm in ("solutions::solve", "solutions::solve_all"):
+        F = prog.one(nm)
+        if F is None:
+            continue
+        ok, why, n = True, "", 0
+        for p in Walker(F, max_visits=3).paths():
+            ev = p.events
+            for i, e in enumerate(ev):
+                if e["k"] == "call" and any(isinstance(a, tuple) and a[0] == "const" and "timed out" in str(a[2]) for a in e["args"]):
+                    n += 1
+                    reads = [x for x in ev[:i] if x["k"] == "branch" and x["cond"][0] == "call" and x["cond"][1] == QS.path]
+                    if not reads or reads[-1]["value"] is not True:
+                        ok, why = False, "the timeout message is built on a path where the stop flag was not (last) read as set"
+                    # and that read follows the last search of the path
+                    srch = [j for j, x in enumerate(ev[:i]) if x["k"] == "call" and x["callee"] == E.path]
+                    if reads and srch and ev.index(reads[-1]) < srch[-1]:
+                        ok, why = False, "the flag read that justifies the timeout message precedes the last search"
+        ctx.ob("R3", "timeout-message-only-when-stopped(%s)" % nm.split("::")[-1], ok and n > 0, ctx.where(F),
+               why or "the timeout text is formatted only behind a true stop-flag read taken after the last search (%d events)" % n)
     # ---- R2 ---------------------------------------------------------------
     ctx.fn(ST)
     ok, why, n = True, "", 0
